@@ -285,6 +285,17 @@ func registerFSWorld(e *Engine) {
 		})
 	}
 	e.Intr["os.Lstat"] = e.Intr["os.Stat"]
+	// os.Chtimes(path, atime, mtime): sets the modification time (used by harnesses to age files)
+	e.Intr["os.Chtimes"] = func(c *Call) []*State {
+		mt := timeExt(c.Args[2])
+		return e.fsResolve(c, c.argTerm(0), func(st *State, idx int) Value {
+			if idx < 0 || !st.fs().Files[idx].Exists {
+				return notExist(st, "chtimes", c.argTerm(0))
+			}
+			st.fs().Files[idx].MTime = mt
+			return Iface{}
+		})
+	}
 	fi := func(c *Call) FSFile { return c.St.Heap[c.Args[0].(Ptr).Obj].(Opaque).Data.(FSFile) }
 	e.Intr["(*os.fileStat).ModTime"] = func(c *Call) []*State { return c.Return(timeVal(fi(c).MTime)) }
 	e.Intr["(*os.fileStat).IsDir"] = func(c *Call) []*State { return c.Return(BoolC(fi(c).IsDir)) }
